@@ -30,7 +30,7 @@ type result struct {
 	SemAcc   bool     `json:"sem_accepted"`
 	Kind     string   `json:"kind"`
 	Panic    string   `json:"panic,omitempty"` // the plain-grammar parser panicked on this text
-	RefAcc   bool     `json:"ref_accepted"` // the Go mirror of the parser model over the grammar tables (used by the failing-input search only)
+	RefAcc   bool     `json:"ref_accepted"`    // the Go mirror of the parser model over the grammar tables (used by the failing-input search only)
 }
 
 // parseWithProbes parses text with a private BQL() whose every clause has a ProcessStart probe.
@@ -275,17 +275,31 @@ func main() {
 			Shared         string   `json:"shared"`
 			Fresh          string   `json:"fresh"`
 			SameAfterFlush bool     `json:"same_after_flush"`
+			// a Statement built by an EARLIER parse on this parser reads differently once the later ones are parsed
+			EarlierChanged string `json:"earlier_changed,omitempty"`
 		}
 		one := func(seq []string) {
 			sg := grammar.SemanticBQL()
 			p, _ := grammar.NewParser(sg)
 			var shared string
+			var keptSt []*semantic.Statement
+			var keptDump []string
 			for _, txt := range seq {
-				shared = parseDump(p, txt)
+				var k *semantic.Statement
+				k, shared = parseKeep(p, txt)
+				keptSt, keptDump = append(keptSt, k), append(keptDump, shared)
 			}
 			fp, _ := grammar.NewParser(grammar.SemanticBQL())
 			fresh := parseDump(fp, seq[len(seq)-1])
 			res := stRes{Kind: "state", Seq: seq, Same: shared == fresh, Shared: shared, Fresh: fresh}
+			for i, k := range keptSt {
+				if k != nil {
+					if now := dumpStatement(k); now != keptDump[i] {
+						res.EarlierChanged = fmt.Sprintf("statement %d (%s): was %s / now %s", i, seq[i], keptDump[i], now)
+						break
+					}
+				}
+			}
 			if !res.Same {
 				// classifier of the known finding "stale lastNopToken": the difference disappears when a statement that
 				// makes every WHERE/VARS hook closure drop its lastNopToken is parsed in between
@@ -654,15 +668,31 @@ func longStatements() []string {
 }
 
 func parseDump(p *grammar.Parser, txt string) (out string) {
+	_, out = parseKeep(p, txt)
+	return out
+}
+
+// parseKeep parses txt and returns the Statement it built together with its dump (nil for a rejected statement).
+func parseKeep(p *grammar.Parser, txt string) (kept *semantic.Statement, out string) {
 	defer func() {
 		if r := recover(); r != nil {
-			out = fmt.Sprintf("PANIC")
+			kept, out = nil, "PANIC"
 		}
 	}()
 	st := &semantic.Statement{}
 	if err := p.Parse(grammar.NewLLk(txt, 1), st); err != nil {
-		return "ERR"
+		return nil, "ERR"
 	}
+	return st, dumpStatement(st)
+}
+
+// dumpStatement renders everything the exported accessors of a Statement tell.
+func dumpStatement(st *semantic.Statement) (out string) {
+	defer func() {
+		if r := recover(); r != nil {
+			out = "PANIC"
+		}
+	}()
 	var b strings.Builder
 	fmt.Fprintf(&b, "type=%v graphs=%v in=%v out=%v", st.Type(), st.GraphNames(), st.InputGraphNames(), st.OutputGraphNames())
 	for _, d := range st.Data() {
